@@ -9,6 +9,7 @@ From Coq Require Import Reals ZArith List Bool Lra Lia Permutation.
 From Coquelicot Require Import Coquelicot.
 From Sky Require Import Result Num NumR G_llh G_llhtdm M_Llh M_LlhPipe M_LlhTdm S_Llh S_LlhPipe
   P_LlhK P_LlhValue P_LlhC1 P_LlhCompose P_LlhTdm.
+From Sky Require Import M_LlhX P_LlhX.
 Import ListNotations.
 Open Scope R_scope.
 
@@ -287,6 +288,42 @@ Theorem C01_multi_skip_empty_dataset_refuted : forall (erfR : R -> R) opa ns fj 
   multi_value (RNum erfR) opa ns (fj :: f) ((Nj, []) :: ds) < multi_value (RNum erfR) opa ns f ds.
 Proof. exact multi_value_skip_empty_dataset_refuted. Qed.
 Print Assumptions C01_multi_skip_empty_dataset_refuted.
+
+(* 14. the -inf / NaN region, about the SAME model definitions read in a number
+   system with the IEEE special values (model/M_LlhX.v: finite real | +inf | -inf |
+   NaN, no rounding, no signed zeros).  On finite inputs with threshold > 0, N <> 0: *)
+Theorem C01_ieee_value : forall opa N ns (Rs : list R),
+  0 < opa -> N <> 0 ->
+  evaluate_value XNum (XF opa) (XF N) (XF ns) (map XF Rs)
+  = xadd (XF (Rsum (map (fun r => Lam (opa - 1) (ns * Xof N r)) Rs)))
+         (xmul (XF (N - INR (length Rs))) (xlog1p (XF (- ns / N)))).
+Proof. exact value_X. Qed.
+Print Assumptions C01_ieee_value.
+
+(* finite, and equal to the real-number formula, for every ns < N (so for every
+   negative ns, however large the ratios) *)
+Theorem C01_ieee_finite : forall opa N ns (Rs : list R),
+  0 < opa -> 0 < N -> ns < N ->
+  evaluate_value XNum (XF opa) (XF N) (XF ns) (map XF Rs)
+  = XF (Rsum (map (fun r => Lam (opa - 1) (ns * Xof N r)) Rs)
+        + (N - INR (length Rs)) * ln (1 - ns / N)).
+Proof. exact value_X_finite. Qed.
+Print Assumptions C01_ieee_finite.
+
+(* ns = N: -inf when there are unselected events, NaN (0 * -inf) when N = N' *)
+Theorem C01_ieee_at_N : forall opa N (Rs : list R),
+  0 < opa -> 0 < N ->
+  (INR (length Rs) < N -> evaluate_value XNum (XF opa) (XF N) (XF N) (map XF Rs) = XNInf)
+  /\ (INR (length Rs) = N -> evaluate_value XNum (XF opa) (XF N) (XF N) (map XF Rs) = XNaN).
+Proof. exact value_X_at_N. Qed.
+Print Assumptions C01_ieee_at_N.
+
+(* ns > N: NaN for every event list *)
+Theorem C01_ieee_beyond_N : forall opa N ns (Rs : list R),
+  0 < opa -> 0 < N -> N < ns ->
+  evaluate_value XNum (XF opa) (XF N) (XF ns) (map XF Rs) = XNaN.
+Proof. exact value_X_beyond_N. Qed.
+Print Assumptions C01_ieee_beyond_N.
 
 (* 13. end to end from the event selection to the value, WITHOUT the duplicate-free
    hypothesis: props/Prop_C01_sel.v (C01_selection_to_value; uses C05's development). *)
